@@ -153,6 +153,7 @@ structure ConnSt where
   kaPending : Option (Nat × Nat) := none
   kaHint : Bool := false        -- `trigger_keepalive` was called and the keepaliver has not consumed the hint yet
   events : Bool := false        -- the connection has an event sender (`conne` cases)
+  evChan : EvChan := { room := 1000000000 }   -- its event channel (mode 0: drained; 1: receiver gone; 2: one slot)
   preferTick : Bool := false    -- the draw of `select!` when a tick is due and a hint is stored (`KaSt.preferTick`)
   orphTimes : List (Nat × Nat) := []   -- orphaned stream id ↦ when it was orphaned (`OrphanageTracker`)
   granted : List Nat := []      -- parked callers to which tokio's semaphore has assigned freed capacity; they still
@@ -253,8 +254,23 @@ def eventOk (f : Frame) : Bool :=
 /-- Bytes have arrived (or the peer has closed): the model's reader runs. -/
 def runReader (st : ConnSt) : ConnSt :=
   let st := noteBodies st
-  let (c', rest) := if st.events then readerEv eventOk st.c st.inbuf st.eof else reader st.c st.inbuf st.eof
-  { install st c' with inbuf := rest }
+  if st.events then
+    let (c', rest, ch') := readerEv eventOk st.evChan st.c st.inbuf st.eof
+    { install st c' with inbuf := rest, evChan := ch' }
+  else
+    let (c', rest) := reader st.c st.inbuf st.eof
+    { install st c' with inbuf := rest }
+
+/-- The raw bytes sent so far do not end on a frame boundary (the harness sends nothing else then). With an event
+sender whole frames may wait in `inbuf` behind a blocked event; they do not count. -/
+def rawPartial (st : ConnSt) : Bool :=
+  match (readFrames st.inbuf).2 with
+  | .boundary => false
+  | _ => true
+
+/-- Big-endian u64 (a request tag). -/
+def tagBytes (k : Nat) : List UInt8 :=
+  (List.range 8).map fun i => UInt8.ofNat (k / 256 ^ (7 - i) % 256)
 
 /-- The gate opens: the blocked `flush` completes (unless the router is gone), then the writer goes on. -/
 def openGate (st : ConnSt) : ConnSt :=
@@ -302,15 +318,17 @@ def connOp (st : ConnSt) (op : String) : Option ConnSt :=
         if s < -32768 || s > 32767 then none else
         if s < 0 then
           -- a RESULT frame on a negative stream: ignored — unless an event sender is registered and it is stream -1
-          if st.events && s == -1 && !st.eof && st.inbuf.isEmpty then
-            some (settle (runReader { st with inbuf := encode ⟨0, -1, 0x08, List.replicate 8 0xFF⟩ }))
+          if st.events && s == -1 && !st.eof && !rawPartial st then
+            some (settle (runReader { st with inbuf := st.inbuf ++ encode ⟨0, -1, 0x08, List.replicate 8 0xFF⟩ }))
           else some st
         else
         let s := s.toNat
-        if st.eof || !st.inbuf.isEmpty then some st else
+        if st.eof || rawPartial st then some st else
         if (visibleIdx st s).isSome then some st else
         if st.gateClosed && s < 2000 then some st else
-        some (settle (via st (.unsolicited s)))
+        if st.events then
+          some (settle (runReader { st with inbuf := st.inbuf ++ encode ⟨0, (s : Int), 0x08, List.replicate 8 0xFF⟩ }))
+        else some (settle (via st (.unsolicited s)))
     else
     match arg.toNat? with
     | none => none
@@ -328,9 +346,16 @@ def connOp (st : ConnSt) (op : String) : Option ConnSt :=
         | some r => some (settle (via st (.poll r)))
         | none => some st
       else if c == 'r' then
-        if st.eof || !st.inbuf.isEmpty then some st else
+        if st.eof || rawPartial st then some st else
         if n < st.c.server.length - st.hidden then
-          some (settle (via st (.respond n)))
+          if st.events then
+            -- through the byte stream: the answer may have to wait behind a blocked event
+            match st.c.server[n]? with
+            | some (s, r) =>
+              let body := tagBytes ((st.users.reverse.idxOf? r).getD 0)
+              some (settle (runReader { st with inbuf := st.inbuf ++ encode ⟨0, (s : Int), 0x08, body⟩ }))
+            | none => some st
+          else some (settle (via st (.respond n)))
         else some st
       else if c == 't' then
         let st1 := via st (.advance n)
@@ -392,7 +417,10 @@ def runConnFrom (st0 : ConnSt) (ops : List String) : String :=
 def runConn (ops : List String) : String := runConnFrom { c := Conn.init } ops
 
 /-- The same with an event sender registered. -/
-def runConnEv (ops : List String) : String := runConnFrom { c := Conn.init, events := true } ops
+def runConnEv (mode : Nat) (ops : List String) : String :=
+  let ch : EvChan := if mode == 1 then { closed := true, room := 0 } else if mode == 2 then { room := 1 }
+    else { room := 1000000000 }
+  runConnFrom { c := Conn.init, events := true, evChan := ch } ops
 
 /-- Keep-alive enabled: the first tick completes one interval after the start. The schedule ends with a silent
 stall of the server, longer than interval + timeout (in steps of 100 ms of virtual time). -/
@@ -410,12 +438,31 @@ def runConnKa (interval timeout : Nat) (ops : List String) (impl : String) : Str
 
 def splitOps (s : String) : List String := (s.splitOn ";").filter (· ≠ "")
 
+/-- Syntax of one schedule operation (what the harness accepts). -/
+def opWellFormed (op : String) : Bool :=
+  match splitOp op with
+  | none => false
+  | some (c, arg) =>
+    if "sSgGxwh".toList.contains c then arg == ""
+    else if "cCprt".toList.contains c then arg.toNat?.isSome
+    else if c == 'u' then
+      match arg.toInt? with
+      | some s => decide (-32768 ≤ s) && decide (s ≤ 32767)
+      | none => false
+    else if c == 'b' then (parseHex arg).isSome
+    else false
+
 def run (case _impl : String) : String :=
   match words case with
   | ["map", ops] => runMap (splitOps ops)
   | ["map"] => runMap []
   | ["conn", wc, ops] => if wc == "0" || wc == "1" then runConn (splitOps ops) else "bad-case"
   | ["conn", wc] => if wc == "0" || wc == "1" then runConn [] else "bad-case"
+  -- `connx`: the schedule language of `conn`, judged by the harness oracles only (schedules with the whole stream-id
+  -- space in flight, whose model line would take minutes; the thorough tier runs them as `conn` too)
+  | ["connx", wc, ops] =>
+    if (wc == "0" || wc == "1") && (splitOps ops).all opWellFormed then "connx" else "bad-case"
+  | ["connx", wc] => if wc == "0" || wc == "1" then "connx" else "bad-case"
   | _ => "bad-case"
 
 end ScyllaVerif.Drive.C02
